@@ -262,3 +262,14 @@ def simplify(R):
         yield dict(R, k=R["k"] - 1)
         yield dict(R, k=R["k"] // 2)
     yield from S.simplify_search(R)
+
+
+def evidence_extra(outs):
+    sweeps = sum(o.get("probes", {}).get("sweep_completed", 0) for o in outs)
+    pts = sum(o.get("stats", {}).get("sweep_crash_points", 0) for o in outs)
+    return {
+        "crash_point_sweeps_completed": sweeps,
+        "crash_points_enumerated_in_sweeps": pts,
+        "crash_points_total": sum(o.get("probes", {}).get("crash_point", 0) for o in outs),
+        "sweep_note": "a completed sweep has pickled and twin-continued the search at EVERY packet boundary k = 0, 1, ... until the search ended (exhaustive over the crash points of that one search; the choice of searches is sampled)",
+    }
